@@ -147,6 +147,9 @@ class Ctx:
             r = self.rules.get(rid)
             if r is None:
                 continue
+            if not r.instances and only is None:
+                r.instances.append((f"{rid}: no site of the known shape", "HOLDS", why))  # nothing of the shape this rule reads exists any more
+                r.floor = 0
             changed = False
             for k, (site, outcome, detail) in enumerate(r.instances):
                 if outcome in ("VIOLATED", "UNRECOGNISED") and (only is None or only in str(site)):
